@@ -616,6 +616,56 @@ func c15SlowDial(who string) *sched.Scenario {
 		}}
 }
 
+// c06Reconnect: a stream client's control connection ends (reset by the client) and the client
+// reconnects at once from the same address and port and allocates. The goroutine of the old
+// connection may notice its end late; its clean-up must not take the allocation of the new
+// connection with it: that one exists until its own lifetime.
+func c06Reconnect() *sched.Scenario {
+	return &sched.Scenario{Name: "c06-reconnect-from-the-same-port-vs-old-connection-cleanup", Bound: bound(), FreeBound: 3, Opt: opt,
+		Body: func(*vsched.Sched) (func() []string, func()) {
+			w := sched.NewBW(sched.BCfg{Stream: true})
+			c := w.NewClient("c1")
+			var nt notes
+			vsched.Go("client", func() {
+				c.Do(wire.Allocate, udp)
+				c.Do(wire.Refresh, lifetime(0)) // the old connection owns no allocation any more
+				vsched.Mark()
+				_ = c.Conn.Close()
+				c2 := w.NewClient("c1") // same address and port, a new connection
+				c2.Nonce = c.Nonce
+				if r := c2.Do(wire.Allocate, udp); r.Class != wire.Success {
+					// the old allocation may still be there: 437 until the old connection's end is noticed; try once more later
+					vsched.IdleSleep(time.Second)
+					if r = c2.Do(wire.Allocate, udp); r.Class != wire.Success {
+						nt.set("second", fmt.Sprintf("refused-%d", r.ErrorCode()))
+
+						return
+					}
+				}
+				nt.set("second", "ok")
+				vsched.IdleSleep(2 * time.Second)
+				r := c2.Do(wire.Refresh, lifetime(600))
+				nt.set("alive", fmt.Sprintf("%d/%d", r.Class, r.ErrorCode()))
+				nt.set("count", fmt.Sprint(w.Srv.AllocationCount()))
+			})
+
+			return func() []string {
+				switch {
+				case nt.get("second") == "":
+					return []string{"c06:client-never-completed"}
+				case nt.get("second") != "ok":
+					return []string{"c06:allocate-on-the-new-connection-" + nt.get("second")}
+				case nt.get("alive") == "":
+					return []string{"c06:allocation-gone-before-its-lifetime:refresh-unanswered"}
+				case nt.get("alive") != fmt.Sprintf("%d/0", wire.Success) || nt.get("count") != "1":
+					return []string{fmt.Sprintf("c06:allocation-gone-before-its-lifetime:refresh=%s,count=%s", nt.get("alive"), nt.get("count"))}
+				}
+
+				return nil
+			}, func() { _ = w.Srv.Close() }
+		}}
+}
+
 func run(t *testing.T, prop string, scs ...*sched.Scenario) {
 	r := rep.New(prop)
 	defer r.Write()
@@ -628,7 +678,7 @@ func run(t *testing.T, prop string, scs ...*sched.Scenario) {
 }
 
 func TestC02Sched(t *testing.T) { run(t, "C02", c02ExpiryRace()) }
-func TestC06Sched(t *testing.T) { run(t, "C06", c06Realloc(), c06ReallocVsTimer()) }
+func TestC06Sched(t *testing.T) { run(t, "C06", c06Realloc(), c06ReallocVsTimer(), c06Reconnect()) }
 func TestC04Sched(t *testing.T) { run(t, "C04", c04TwoConns()) }
 func TestC16Sched(t *testing.T) { run(t, "C16", c16TwoBinds(), c16BindVsTimeout()) }
 func TestC15Sched(t *testing.T) {
